@@ -135,6 +135,14 @@ class RawObj(SVal):
 
         return call
 
+    def py_getitem(self, cx, k):  # raw[k]
+        cx.effect("RAW", "__getitem__", (k,))
+        return RawResult("__getitem__", (k,))
+
+    def py_contains(self, cx, item):  # k in raw
+        cx.effect("RAW", "__contains__", (item,))
+        return SBool(z3.Bool(fresh_name("raw_contains")))
+
 
 class RawResult(SVal):
     def __init__(self, meth, args):
@@ -142,6 +150,10 @@ class RawResult(SVal):
 
     def py_truth(self, cx):
         return True
+
+    def py_contains(self, cx, item):  # `x in <something raw>`: a raw lookup again
+        cx.effect("RAW", "__contains__", (self, item))
+        return SBool(z3.Bool(fresh_name("raw_contains")))
 
 
 class Wrapped(SVal):
